@@ -42,15 +42,24 @@
    backend is the instance with a single element in NS).  The unconfigured-namespace branch of the executor
    (task dropped) is outside the statement.  The backend never loses a blob.
 
-   Fix* constants.  FALSE models the code as built; TRUE models the candidate repairs (fixes/F31a.diff, fixes/F31b.diff):
-     FixLeak    forced cleanup: a flagged file without task row is NOT deleted (as built it is classified "leaked,
-                safe to delete" -- but a commit between setPersist and manager.Add looks exactly like that, goes
-                on, and is acknowledged if the file re-appears (second uploader, replication, refresh)).
-     FixShared  the persist flag is one per file but task rows are per (namespace, file): as built the first
-                namespace that finishes clears the flag for all.  Repair: executor and forced cleanup clear the
-                flag / delete the file only when no OTHER task row exists for the file, and writeBack sets the
-                flag once more after manager.Add (so that a clear that slipped in between setPersist and Add
-                -- when the row was not yet visible -- is undone).                                           *)
+   Findings (both reproduced on the real code, known_findings.d/C31.json) and the Fix* constants.  FALSE models the
+   code as built, TRUE the candidate repairs (fixes/F31a.diff, fixes/F31b.diff); MC_WriteBack_asbuilt*.cfg produce
+   the counterexamples, the MC_WriteBack*.cfg used by the check have the repairs on and TLC proves the invariants.
+     FixLeak    (F31a) forced cleanup: a flagged file without task row is NOT deleted.  As built it is classified
+                "leaked, safe to delete" -- but a commit between setPersist and manager.Add looks exactly like
+                that; the commit goes on, stores a task for a missing file, and either (i) is acknowledged after
+                all because the file re-appeared (second uploader, replication), now without flag, or (ii) fails,
+                its task is executed ("cache file missing": clear flag, remove row) while a retried commit of the
+                same blob is acknowledged on top of the SAME row (Add is a no-op): flag and row of the
+                acknowledged commit are gone.  Either way DELETE / cleanup / eviction remove the only copy and
+                the blob never reaches the backend (Safe and Live fail).
+     FixShared  (F31b) the persist flag is one per file but task rows are per (namespace, file): as built the
+                first namespace that finishes clears the flag for all (and the forced cleanup deletes the file
+                after executing only the rows it found).  Repair: executor and forced cleanup clear the flag /
+                delete the file only when no OTHER task row exists for the file, writeBack sets the flag once
+                more after manager.Add (a clear that slipped in between setPersist and Add -- when the row was
+                not yet visible -- is undone), and a task whose cache file is missing FAILS (row kept, retried)
+                instead of being dropped.                                                                     *)
 EXTENDS Integers, FiniteSets, Sequences, TLC
 
 CONSTANTS D, NS,            \* digests, namespaces
@@ -94,9 +103,6 @@ DelRes(d) == IF d \notin cache THEN "notfound" ELSE IF d \in persist THEN "persi
 
 -----------------------------------------------------------------------------
 (* cluster upload: start / patch / commit, conflict handling, writeBack *)
-
-\* reply of start in the pre-state: "ok" (upload file created) or "conflict" (enters handleUploadConflict)
-StartRes(d) == IF d \in cache THEN "conflict" ELSE "ok"
 
 HStart(h, n, d, kind) ==                  \* a duplicate upload starts and patches through the public endpoints too
   /\ hd[h].pc = "idle" /\ nstart < MaxStart /\ kind \in Kinds
